@@ -1435,160 +1435,80 @@ LEVEL_NOTE = ("trusts pandas as the reference, the shared comparison discipline 
 TECHNIQUE = ("runtime monitoring: differential oracle against pandas on every computed groupby result (staged comparison with "
              "explain-and-repair), lowered-plan observation for the after-shuffle facet, complete setting products + random")
 
-# labels observed on the unchanged tree (quick seeds 0,1,2,7,12345 + thorough); see findings_proposed/C38.md
+# the labels that remain with fixes_ready/C38_*.patch applied; each is an entry of known_findings.d/C38.json
 PENDING = {
-    'agg-any:cat-key&observed=False&multi-key:IndexError@dataframe/dask_expr/_groupby.py:_median_groupby_aggregate':
-        'same mechanism inside median',
-    'agg-any:cat-key&observed=False&multi-key:IndexError@dataframe/groupby.py:_apply_chunk':
-        "several keys incl. a categorical one, observed=False: the chunk of a partition raises 'cannot do a non-empty take from an empty axes'",
-    'agg-any:cat-key&observed=False&multi-key:IndexError@dataframe/groupby.py:_apply_func_to_column':
-        'same mechanism inside agg()',
-    'agg-any:cat-key&observed=False&multi-key:IndexError@dataframe/groupby.py:_var_chunk':
-        'same mechanism inside var/std',
-    'agg-any:cat-key&observed=False&shuffle:groups-duplicated':
-        'categorical key, observed=False, shuffle (split_out>1): every output partition re-expands all categories, groups come back several times',
-    'agg-any:key-has-0.0-and-negative-0.0&shuffle:groups-duplicated':
-        'float key holding 0.0 and -0.0 (one pandas group): hash partitioning separates them, the group is reported twice',
-    'agg-any:series-key-named-like-selected-column&shuffle:ValueError@dataframe/dask_expr/_expr.py:_meta':
-        "df.groupby([df.a % 2, 'b']).a.sum(split_out=2): ResetIndex before the shuffle raises 'cannot insert a, already exists'",
-    'agg:after-shuffle:group-spans-partitions:values':
-        'agg with first/last after a shuffle (split_out>1, or any agg containing median): first/last of shuffled chunks',
-    'agg:agg[median]&index-key:KeyError@dataframe/groupby.py:_non_agg_chunk':
-        'agg containing median grouped by the index name: set_index(by) KeyError',
+    'agg-any:cat-key&observed=False':
+        'aggregations grouped by a categorical key with observed=False return groups several times (every output partition re-expands all categories), or miss/raise on unobserved combinations with several keys',
+    'agg-any:key-has-0.0-and-negative-0.0':
+        'a float key holding both 0.0 and -0.0 (one group in pandas) is split into two groups by every shuffle',
+    'agg-any:series-key-named-like-selected-column&shuffle:ValueError':
+        "aggregations with split_out>1 raise 'cannot insert a, already exists' when a Series key has the name of a selected column",
+    'agg:agg[median+size]&cat-key&observed=False:values':
+        'agg containing median and size with a categorical key and observed=False: size counts placeholder rows (q 12 instead of 11, unobserved category 4 instead of 0)',
+    'agg:agg[median]&index-key:KeyError':
+        "agg containing median grouped by the index name raises KeyError (None of ['idx'] are in the columns)",
     'agg:agg[median]&list-selection-not-in-frame-order:columns-order':
-        "g[['d','c']].agg('median'): columns in frame order instead of selection order",
-    'agg:agg[median]&series-groupby&single-function:kind':
-        "SeriesGroupBy.agg('median') returns a DataFrame instead of a Series",
-    'agg:agg[median]&series-groupby:columns':
-        "SeriesGroupBy.agg([.., 'median']) returns columns (col, func) instead of func",
-    'agg:agg[median]&sort=True:KeyError@_expr.py:__new__':
-        "agg containing median with sort=True: ShuffleReduce builds SortValues with wrong operands (KeyError 'options')",
-    'agg:cat-key&observed=False:IndexError@dataframe/groupby.py:_apply_func_to_column':
-        'agg with categorical key observed=False on a partition without rows for a category',
-    'agg:cat-key&observed=False:dtype':
-        'agg with categorical key observed=False: dtype of a result column differs (unobserved groups)',
-    'agg:cat-key&observed=False:length':
-        'several keys incl. a categorical one, observed=False, agg with median: set of unobserved combinations differs from pandas',
-    'agg:cat-key&observed=False:values':
-        'same as agg:cat-key&observed=False:length (rows for unobserved combinations differ)',
-    'agg:empty-frame:dtype':
-        'agg on an empty frame: int column comes back float64',
-    'agg:named&same-(column,function)-twice:ValueError@dataframe/groupby.py:_build_agg_args':
-        "agg(x=('d','sum'), y=('d','sum')) raises 'conflicting aggregation functions'; pandas accepts",
+        "agg('median') / agg([.. 'median' ..]) on a list selection returns the columns in frame order",
+    'agg:agg[median]&series-groupby:result-shape':
+        "SeriesGroupBy.agg('median') returns a DataFrame and agg([... 'median' ...]) has columns (col, func) instead of func",
+    'agg:agg[median]&sort=True:KeyError':
+        "groupby(sort=True).agg with median raises KeyError: 'options'",
+    'agg:named&same-(column,function)-twice:ValueError':
+        "named aggregation that uses the same (column, function) pair twice raises 'conflicting aggregation functions'; pandas accepts it",
     'cov-corr:NA-in-values:values':
-        'cov/corr with NaN in a column: complete-column sums and sqrt(n_i n_j) instead of pairwise complete observations',
-    'cov-corr:ddof!=1:values':
-        'cov(ddof=) is ignored by _cov_finalizer (always n-1); fix diff in findings_proposed/C38.md',
-    'cov-corr:empty-frame:AttributeError@dataframe/groupby.py:_cov_agg':
-        "cov/corr of an empty frame with 2 partitions: 'Index' object has no attribute 'levels'",
-    'cov-corr:empty-partition:ValueError@dataframe/groupby.py:_cov_agg':
-        "cov/corr, several keys, empty partition: 'multiple levels only valid with MultiIndex'",
-    'cov-corr:empty-partition:ValueError@dataframe/groupby.py:_cov_finalizer':
-        "cov/corr with an empty partition: 'cannot reindex on an axis with duplicate labels'",
+        'groupby cov/corr differ from pandas when a column has NaN: pandas uses pairwise complete observations',
+    'cov-corr:empty-partition:exception':
+        "groupby cov/corr raise (cannot reindex on an axis with duplicate labels / multiple levels only valid with MultiIndex / 'Index' object has no attribute 'levels') when a partition is empty",
     'cov-corr:list-selection-not-in-frame-order:columns-order':
-        "g[['d','c']].cov(): columns/inner index level in frame order instead of selection order",
-    'cov-corr:meta-of-tuple-chunk:ValueError@dataframe/backends.py:make_meta_object':
-        'cov/corr on a single-partition frame or with split_out>1: meta of the tuple-valued chunk is requested',
+        'groupby cov/corr return a list selection in frame column order (columns and inner index level)',
+    'cov-corr:meta-of-tuple-chunk:ValueError':
+        "groupby cov/corr raise 'Expected iterable of tuples of (name, dtype)' on a one-partition frame and with split_out>1",
     'cum:NA-in-values:spurious-NA:values':
-        'cumsum/cumprod: a group whose values inside one partition are all NaN poisons the carried total of later partitions',
-    'cum:empty-partition:name':
-        'cumcount with an empty first partition returns a Series named 0 instead of None',
-    'cum:series-key:ValueError@dataframe/groupby.py:_groupby_raise_unaligned':
-        "cumsum/cumprod/cumcount grouped by a derived Series: meta groups the empty frame by the non-empty key ('unaligned')",
+        "groupby cumsum/cumprod give NaN for all later rows of a group once the group's values inside one partition are all NaN",
+    'cum:series-key:ValueError':
+        "groupby cumsum/cumprod/cumcount grouped by a derived Series raise 'Grouping by an unaligned column is unsafe and unsupported'",
     'ffill-bfill:after-shuffle:values':
-        'ffill/bfill run on rows in shuffled order (no order restoration at all)',
-    'ffill-bfill:empty-frame:dtype':
-        'ffill of a whole empty frame: int column comes back float64',
+        'groupby ffill/bfill fill from the wrong rows whenever the frame is shuffled (always, unless grouped by the index name on known divisions)',
     'first-last:after-shuffle:group-spans-partitions:values':
-        'first/last with split_out>1: per-partition results are hash-shuffled, the first/last arriving chunk wins',
-    'idxmin-idxmax:empty-frame:ValueError@utils.py:__call__':
-        'idxmin/idxmax on an empty frame with categorical key observed=False raises during meta/compute',
-    'idxmin-idxmax:group-all-NA-within-a-partition:ValueError@dataframe/groupby.py:_apply_chunk':
-        'idxmin/idxmax: the part of a group inside one partition is all-NA -> pandas 3 raises in the chunk although the group has values',
-    'idxmin-idxmax:group-all-NA-within-a-partition:ValueError@utils.py:__call__':
-        'same mechanism, raised from the aggregate stage',
+        'groupby first/last (also inside agg) with split_out>1, or agg containing median, take the first/last of hash-shuffled per-partition results instead of the first/last row of the group',
+    'idxmin-idxmax:group-all-NA-within-a-partition:ValueError':
+        "groupby idxmin/idxmax raise 'encountered all NA values' when the rows of a group inside one partition are all NA although the group has values",
     'idxmin-idxmax:group-spans-partitions:values':
-        "IdxMin/IdxMax aggregate with 'first': arg-extreme of the first partition that holds the group",
-    'mean-var-std:list-selection-not-in-frame-order:columns-order':
-        "g[['d','c']].mean()/var()/std(): columns in frame order instead of selection order",
-    'mean-var-std:na-keys&dropna!=False:extra-NA-group':
-        'mean/var/std pass dropna=None explicitly, pandas treats it as False: NA group kept; fix diff in findings_proposed/C38.md',
-    'median:cat-key&observed=False&shuffle:groups-duplicated':
-        'median with categorical key observed=False: every partition re-expands the categories',
+        "groupby idxmin/idxmax return the arg-extreme of the first partition that contains the group instead of the group's",
+    'median:cat-key&observed=False':
+        'groupby median with a categorical key and observed=False returns every group once per partition',
     'median:sort=True&split_out=1:row-order':
-        'median(split_out=1) with sort=True is not sorted',
-    'median:split_every&series-or-index-key:length':
-        'Median.npartitions = npartitions // split_every while the frame keeps its partitions: rows silently lost',
-    'median:split_every>npartitions:AssertionError@dataframe/dask_expr/_repartition.py:_partitions_boundaries':
-        'median(split_every>npartitions, split_out=k): npartitions 0 reaches Repartition',
-    'median:split_every>npartitions:ZeroDivisionError@dataframe/dask_expr/_repartition.py:_nsplits':
-        'median(split_every=8) on fewer partitions: npartitions becomes 0',
-    'nunique:cat-key&observed=False:length':
-        'nunique, several keys incl. categorical, observed=False: unobserved combinations missing',
-    'nunique:cat-key&observed=False:unobserved-groups-missing':
-        'nunique aggregates with observed=True: unobserved categories missing',
-    'nunique:na-keys&dropna=False:NA-group-missing':
-        'nunique aggregate stage ignores dropna=False: NA group missing',
-    'nunique:sort=True&split_out=1:row-order':
-        'nunique aggregate stage ignores sort=True',
+        'groupby(sort=True).median(split_out=1) is not sorted by key',
+    'nunique:cat-key&observed=False':
+        'SeriesGroupBy.nunique ignores observed=False: unobserved categories are missing',
     'shift:after-shuffle&index-not-strictly-increasing:values':
-        'shift after the shuffle orders rows by sort_index(): differs from row order unless the index is strictly increasing',
-    'shift:cat-key&observed=False:IndexError@dataframe/groupby.py:_groupby_slice_shift':
-        'shift, categorical key observed=False, partition empty after the shuffle',
-    'shift:cat-key&observed=False:index-names':
-        'shift with categorical key observed=False: index name lost',
-    'shift:empty-frame:index-names':
-        'shift on an empty frame: index name lost',
-    'shift:key-has-0.0-and-negative-0.0&shuffle:values':
-        'rows with key 0.0 and -0.0 land in different partitions: shifted separately',
-    'shift:series-key&duplicate-index-labels:ValueError@dataframe/groupby.py:_groupby_slice_shift':
-        "shift by a Series key on duplicate index labels: sort_index + Series grouper 'cannot reindex on an axis with duplicate labels'",
-    'transform-like:na-keys&dropna!=False:IndexError@dataframe/groupby.py:_groupby_slice_transform':
-        'transform on a shuffled partition that holds NA keys only',
-    'transform-like:na-keys&dropna!=False:ValueError@dataframe/groupby.py:_groupby_slice_transform':
-        "ffill/bfill/transform on a shuffled partition that holds NA keys only: 'No objects to concatenate'",
-    'transform-like:na-keys&dropna!=False:rows-with-NA-key-missing':
-        'transform/ffill: rows whose key is NA are dropped, pandas returns them as NaN',
-    'transform-like:nullable-int-key&dropna=False:TypeError@dataframe/groupby.py:_groupby_slice_transform':
-        "groupby('n', dropna=False).ffill()/bfill()/transform(f): slow-path transform with <NA> group name, 'boolean value of NA is ambiguous'",
-    'transform:cat-key&observed=False:TypeError@dataframe/backends.py:_union_categoricals_wrapper':
-        'transform with categorical key observed=False: concat of partitions with rows produced by g.apply on empty partitions',
-    'transform:cat-key&observed=False:index-names':
-        'transform with categorical key observed=False: g.apply on empty partitions adds rows, index name lost',
-    'transform:cat-key&observed=False:length':
-        'transform with categorical key observed=False: extra rows labelled by categories',
-    'transform:empty-frame:index-names':
-        'transform on an empty frame: index name lost',
-    'transform:key-has-0.0-and-negative-0.0&shuffle:values':
-        'rows with key 0.0 and -0.0 land in different partitions: group statistics computed on halves',
-    'value_counts:cat-key&observed=False:IndexError@dataframe/groupby.py:_value_counts':
-        'value_counts with categorical key observed=False on an empty partition',
-    'value_counts:cat-key&observed=False:values':
-        'value_counts with categorical key observed=False: zero-count rows differ',
+        'groupby shift after the shuffle orders the rows of a group by index label (sort_index), which is the row order only when the index is strictly increasing',
+    'shift:series-key&duplicate-index-labels:ValueError':
+        "groupby shift by a derived Series key on a frame with duplicate index labels raises 'cannot reindex on an axis with duplicate labels'",
+    'transform-like:cat-key&observed=False':
+        'groupby transform/shift/ffill with a categorical key and observed=False return extra rows labelled by the categories and lose the index name',
+    'transform-like:empty-frame:dtype':
+        'groupby ffill/bfill of an empty frame return int columns as float64',
+    'transform-like:empty-frame:names':
+        'groupby transform/shift on an empty frame lose the index name',
+    'transform-like:key-has-0.0-and-negative-0.0':
+        'transform/shift/ffill: rows with key 0.0 and -0.0 land in different partitions and are processed as two groups',
+    'transform-like:na-keys&dropna!=False':
+        'transform/ffill/bfill with NA keys (dropna not disabled): rows whose key is NA are dropped, or the call raises, when a shuffled partition holds NA keys only',
+    'transform-like:nullable-int-key&dropna=False:TypeError':
+        "groupby(<nullable Int64 key>, dropna=False).ffill()/bfill()/transform(f) raise 'boolean value of NA is ambiguous'",
+    'value_counts:cat-key&observed=False':
+        'SeriesGroupBy.value_counts with a categorical key and observed=False: zero-count rows differ from pandas / the chunk raises on a partition without rows for a category',
     'value_counts:empty-frame:dtype':
-        'value_counts of an empty frame: float64 instead of int64',
-    'value_counts:empty-frame:name':
-        "value_counts of an empty frame: Series name None instead of 'count'",
+        'value_counts of an empty frame is float64 (pandas int64)',
+    'value_counts:empty-frame:names':
+        "value_counts of an empty frame has no name (pandas 'count')",
     'value_counts:empty-result:dtype':
-        'value_counts whose result is empty (column all NA): float64 instead of int64',
-    'value_counts:empty-result:name':
-        "value_counts whose result is empty: Series name None instead of 'count'",
-    'value_counts:key-has-0.0-and-negative-0.0:length':
-        'value_counts: 0.0 and -0.0 keys merged/split differently from pandas',
-    'value_counts:multi-key&dropna=False:ValueError@dataframe/groupby.py:_value_counts_aggregate':
-        "groupby([..], dropna=False)[col].value_counts(): 'Values not found in passed level' (DESIGN 6 #19)",
-    'value_counts:multi-key&partition-without-non-NA-key:ValueError@dataframe/groupby.py:_groupby_aggregate':
-        'value_counts, several keys, a partition that is empty / holds NA keys only',
-    'value_counts:na-keys&dropna=False:NA-group-missing':
-        'value_counts with NaN key, dropna=False, partition holding NA keys only: the NA group is lost',
-    'value_counts:na-keys&dropna=False:length':
-        'value_counts with NaN key and dropna=False: NaN groups of different partitions are not merged',
-    'value_counts:na-keys&dropna=False:values':
-        'value_counts with NaN key and dropna=False: counts of the NaN group not merged across partitions',
-    'value_counts:partition-without-non-NA-key&shuffle:KeyError@base.py:compute':
-        'same root cause, raised when the graph is materialised',
-    'value_counts:partition-without-non-NA-key&shuffle:KeyError@dataframe/dask_expr/_shuffle.py:operation':
-        '_value_counts returns an index-less empty Series for a partition that is empty / NA-keys only; the shuffle cannot find the key column',
-    'value_counts:partition-without-non-NA-key:AttributeError@dataframe/groupby.py:_value_counts_aggregate':
-        "same root cause without shuffle: 'RangeIndex' object has no attribute 'levels'",
+        'value_counts whose result is empty is float64',
+    'value_counts:empty-result:names':
+        'value_counts whose result is empty (e.g. the column is all NA) has no name',
+    'value_counts:key-has-0.0-and-negative-0.0':
+        'value_counts: keys 0.0 and -0.0 are merged/split differently from pandas',
+    'value_counts:multi-key&dropna=False:ValueError':
+        "groupby([k1, k2], dropna=False)[col].value_counts() raises 'Values not found in passed level: Index([nan])' even without NA keys",
 }
